@@ -175,7 +175,13 @@ func (s *SSD) OnSurvey(surveyType string, payload []byte) ([]byte, bool) {
 
 // Lookup performs a against the storage.
 func (s *SSD) lookup(q lookupQuery) (matches message.Frame) {
-	matches = make(message.Frame, 0, q.Limit)
+	// The limit is given by the client and must not size the allocation up-front
+	capacity := q.Limit
+	if capacity < 0 || capacity > maxPrealloc {
+		capacity = maxPrealloc
+	}
+
+	matches = make(message.Frame, 0, capacity)
 	if err := s.db.View(func(tx *badger.Txn) error {
 		it := tx.NewIterator(badger.IteratorOptions{
 			PrefetchValues: false,
